@@ -316,10 +316,10 @@ func (c *Conversation) Receive(in []byte) (out []byte, encrypted bool, change Se
 	case msgTypeDHCommit:
 		switch c.authState {
 		case authStateNone:
-			c.authState = authStateAwaitingRevealSig
 			if err = c.processDHCommit(msg); err != nil {
 				return
 			}
+			c.authState = authStateAwaitingRevealSig
 			c.reset()
 			toSend = c.encode(c.generateDHKey())
 			return
@@ -335,10 +335,10 @@ func (c *Conversation) Receive(in []byte) (out []byte, encrypted bool, change Se
 				return
 			} else {
 				// They win. We forget about our DH commit.
-				c.authState = authStateAwaitingRevealSig
 				if err = c.processDHCommit(msg); err != nil {
 					return
 				}
+				c.authState = authStateAwaitingRevealSig
 				c.reset()
 				toSend = c.encode(c.generateDHKey())
 				return
